@@ -60,7 +60,10 @@ def strategy():
         real = draw(st.sampled_from([False] * 3 + [True])) and n < 100000
         repeat = draw(st.sampled_from([1, 1, 2, 3]))
         return {"repeat": repeat, "sockpad": sockpad, "out": out, "stdio": stdio, "n": n, "body": body, "shape": shape, "chain": chain, "errlog": errlog,
-                "fac": fac, "lvl": lvl, "ident": ident, "identval": identval, "exact_limit": exact_limit, "real": real}
+                "fac": fac, "lvl": lvl, "ident": ident, "identval": identval, "exact_limit": exact_limit, "real": real,
+                # the caller has switched its stdout to full buffering (setvbuf / stdbuf -o): buffering is the caller's business, the record
+                # still has to be out before the image is replaced -- also when stdout is a terminal
+                "fullbuf": draw(st.sampled_from([False, False, True]))}
     return case()
 
 
@@ -148,6 +151,8 @@ def evaluate(env, c):
             ops.append(drv.op("S", fd, "file", out + "/fd%d.file" % fd))
         else:
             ops.append(drv.op("S", fd, c["stdio"]))
+    if c.get("fullbuf"):
+        ops.append(drv.op("w", b""))
     ops += [drv.op("K", "devlog", out + "/devlog.sock", 1), drv.op("K", "sock", sock_path(c, out)),
             drv.op("W", "log", out + "/log"), drv.op("W", "logtpl", out + "/log-x-1"),
             drv.op("C", p["ini"]), drv.op_env(p["environ"]), drv.op("Q")]
@@ -266,7 +271,7 @@ def classify(c):
         c["n"] > 1024 or binary or c["out"] == "filetpl" or nondef_syslog)
     key = (c["out"], sizecls, c["chain"], c["stdio"], c["real"], binary, c.get("repeat", 1)) if nontriv else None
     cls = ["out:" + c["out"], "size:" + sizecls, "chain:" + c["chain"], "stdio:" + c["stdio"],
-           "real" if c["real"] else "scripted", "repeat:%d" % c.get("repeat", 1)]
+           "real" if c["real"] else "scripted", "repeat:%d" % c.get("repeat", 1)] + (["stdout-fully-buffered-by-caller"] if c.get("fullbuf") else [])
     if c["errlog"]:
         cls.append("error_logging")
     if binary:
@@ -289,7 +294,7 @@ def _c(**kw):
 
 
 FIXED = [
-    _c(out="stdout", real=True), _c(out="stdout", stdio="file"),                                 # record must leave the stdio buffer before the exec
+    _c(out="stdout", real=True), _c(out="stdout", stdio="file"), _c(out="stdout", stdio="pty", real=True, fullbuf=True), _c(out="stdout", stdio="pty", fullbuf=True),                                 # record must leave the stdio buffer before the exec
     _c(out="file", shape="empty", n=0, body=b""), _c(out="stdout", shape="empty", n=0, body=b""),  # empty message: no record at all
     _c(out="file", repeat=3), _c(out="filetpl", repeat=2),                                       # same call repeated in one process
     _c(out="socket", sockpad=107), _c(out="socket", sockpad=106),
